@@ -344,6 +344,14 @@ func init() {
 				body = `<div id="page">` + body + `</div>`
 			case 1:
 				body = `<main>` + body + `</main><script>1</script>`
+			case 2:
+				// several top-level containers: none of them is "the" page wrapper, so a header or footer
+				// inside the first one is not a top-level header
+				hf := []string{"header", "footer"}[rng.Intn(2)]
+				g.anchors = nil // the pieces again, in document order
+				head := g.blocks(1, 1)
+				body = g.blocks(0, nb)
+				body = `<div id="first"><` + hf + `>` + head + `</` + hf + `>` + body + `</div><style>y{}</style><div id="second">` + g.blocks(1, rng.Range(1, 2)) + `</div>`
 			}
 			doc := `<!DOCTYPE html><html><head><title>t</title><style>x{}</style></head><body>` + body + `</body></html>`
 			root, err := html.Parse(strings.NewReader(doc))
